@@ -52,7 +52,7 @@ Lemma do_action_dl : forall b t sc k a canc done orc,
   let '(r2, l2, o2, c2, d2, k2) := do_action t (set_dl b sc) k a canc done orc in
   rsim r1 r2 /\ l1 = l2 /\ o1 = o2 /\ c1 = c2 /\ d1 = d2 /\ k1 = k2.
 Proof.
-  intros b t sc k a canc done orc. unfold do_action. cbn [set_dl sctxapi sconn sdl]. destruct a as [m w| | | | |].
+  intros b t sc k a canc done orc. unfold do_action. cbn [set_dl sctxapi sconn sdl]. destruct a as [m w| | | | | |].
   - destruct (sctxapi sc && w && canc); [cbn; auto 10|]. destruct done; [cbn; auto 10|].
     pose proof (do_stmt_dl t (sconn sc) k m (sctxapi sc && w) (sdl sc) b orc) as H.
     destruct (do_stmt t (sconn sc) k m (sctxapi sc && w) (sdl sc) orc) as [[[r1 l1] o1] c1].
@@ -61,6 +61,7 @@ Proof.
   - cbn; auto 10.
   - destruct (do_selfend t (sconn sc) k true canc done orc) as [[[[[r l] o] c] d] lk]. destruct r; cbn; auto 10.
   - destruct (do_selfend t (sconn sc) k false canc done orc) as [[[[[r l] o] c] d] lk]. destruct r; cbn; auto 10.
+  - cbn; auto 10.
   - cbn; auto 10.
   - cbn; auto 10.
 Qed.
